@@ -4,6 +4,7 @@ import (
 	"fmt"
 	"strings"
 
+	"github.com/influxdata/influxql"
 	"verifharness/astx"
 	"verifharness/gen"
 	"verifharness/mon"
@@ -44,7 +45,59 @@ func c01One(c *Ctx, gc *GCase, sub string, local map[string]int64) bool {
 		return false
 	}
 	local["ast-equal"]++
+	// ParseStatement must build the same statement (it does not look at what follows)
+	var st2 influxql.Statement
+	var err2 error
+	if p, pv, stk := mon.Try(func() { st2, err2 = influxql.ParseStatement(gc.Text) }); p {
+		d := det(fmt.Sprint(pv))
+		d["stack"] = stk
+		r.Violation("panic-in-ParseStatement", d)
+		return false
+	}
+	if err2 != nil || dumpOf(st2) != want {
+		r.Violation("ParseStatement-differs", det(fmt.Sprintf("ParseStatement: err=%v, %s", err2, astx.FirstDiff(want, dumpOf(st2)))))
+		return false
+	}
+	local["ParseStatement-equal"]++
 	return true
+}
+
+// c01Expr generates one expression, renders it and compares ParseExpr's tree.
+func c01Expr(c *Ctx, idx int, local map[string]int64) {
+	r := c.R
+	rg := mon.NewRng(c.Seed, "c01.expr", idx)
+	g := gen.New(rg, gen.Opts{Hostile: idx%4 == 0, MaxDepth: 2 + idx%3})
+	ctx := gen.CtxCond
+	if idx%3 == 0 {
+		ctx = gen.CtxField
+	}
+	want := g.Tree(ctx, g.Opt.MaxDepth)
+	g.Emit(want)
+	text, _ := gen.Render(g.B.Toks, gen.Layout{Rg: rg})
+	det := func(why string) map[string]interface{} {
+		return map[string]interface{}{"sub": "expr", "idx": idx, "input": text, "why": why}
+	}
+	var got influxql.Expr
+	var err error
+	if p, pv, stk := mon.Try(func() { got, err = influxql.ParseExpr(text) }); p {
+		d := det(fmt.Sprint(pv))
+		d["stack"] = stk
+		r.Violation("panic-in-ParseExpr", d)
+		return
+	}
+	r.Eval(1)
+	r.DistinctStr("expr|" + text)
+	local["expressions"]++
+	if err != nil {
+		r.Violation("grammatical-expression-rejected", det(err.Error()))
+		return
+	}
+	if a, b := dumpOf(want), dumpOf(got); a != b {
+		r.Violation("expression-ast-differs", det(astx.FirstDiff(a, b)))
+		return
+	}
+	local["expr-equal"]++
+	mergeFeat(local, g.Feat)
 }
 
 // c01Known recognises known C01 deviations by their precise shape.
@@ -54,7 +107,7 @@ func c01Known(gc *GCase, errText string) string {
 
 func checkC01(c *Ctx) (string, bool, []string) {
 	r := c.R
-	rule := "AST-first generation: for each of the 44 statement kinds every subset of its optional clauses with minimal payloads (exhaustive), rendered in two layouts; plus random payloads (names of 1-3 segments, regex sources, back-references, subqueries, casts, wildcards, calls, all operators, every literal kind incl. boundary integers, signed operands) in random spellings (keyword case, quoting, escapes, number and duration spellings, whitespace kinds). Each text goes through ParseQuery and the result is compared structurally with the intended AST. Non-trivial = at least one optional clause present or an expression with an operator; distinct by text."
+	rule := "AST-first generation: for each of the 44 statement kinds every subset of its optional clauses with minimal payloads (exhaustive), rendered in two layouts; plus random payloads (names of 1-3 segments, regex sources, back-references, subqueries, casts, wildcards, calls, all operators, every literal kind incl. boundary integers, signed operands) in random spellings (keyword case, quoting, escapes, number and duration spellings, whitespace kinds). Each text goes through ParseQuery and ParseStatement, and stand-alone generated expressions through ParseExpr; every result is compared structurally with the intended AST. Non-trivial = at least one optional clause present or an expression with an operator; distinct by text."
 	assume := []string{"the generator's model of the grammar (README plus parser extensions listed in DESIGN.md section 2)", "structural equality = astx canonical dump"}
 	if c.Replay != nil {
 		opt := gen.Opts{}
@@ -68,6 +121,10 @@ func checkC01(c *Ctx) (string, bool, []string) {
 			opt.Simple = true
 		case "random-hostile":
 			opt.Hostile = true
+		}
+		if sub == "expr" {
+			c01Expr(c, replayInt(c, "idx"), map[string]int64{})
+			return rule, false, assume
 		}
 		kind := replayInt(c, "kind_index")
 		mask := replayInt(c, "mask")
@@ -124,6 +181,13 @@ func checkC01(c *Ctx) (string, bool, []string) {
 		}
 		r.MergeCounts(local)
 	})
+	nexpr := c.N(30000, 1000000)
+	mon.Parallel(nexpr, c.Workers, func(i int) {
+		local := map[string]int64{}
+		c01Expr(c, i, local)
+		r.MergeCounts(local)
+	})
+	r.Require(r.Counter("expr-equal") > 0 && r.Counter("ParseStatement-equal") > 0, "ParseExpr / ParseStatement never compared")
 	for _, kd := range gen.Kinds {
 		r.Require(r.Counter("kind."+kd.Name) > 0, "statement kind "+kd.Name+" never generated")
 		for _, cl := range kd.Clauses {
